@@ -118,7 +118,8 @@ def run_real(repo: str, desc: dict, strace: dict | None = None) -> dict:
             cmd = ["sh", "-c", 'exec "$@" 2>&-', "sh"] + cmd
         if strace:
             target = os.path.normpath(os.path.join(root, strace["path"]))
-            cmd = ["strace", "-f", "-o", "/dev/null", "-P", target, "-P", strace["path"], "-e", "trace=" + strace["syscall"],
+            trace_file = os.path.join(tempfile.gettempdir(), "verif-strace-%d-%s.log" % (os.getpid(), os.path.basename(root)))
+            cmd = ["strace", "-f", "-o", trace_file, "-P", target, "-P", strace["path"], "-e", "trace=" + strace["syscall"],
                    "-e", "inject=%s:error=%s:when=%s" % (strace["syscall"], strace["errno"], strace.get("when", "1"))] + cmd
         try:
             p = subprocess.run(cmd, cwd=root, env=env, stdin=subprocess.DEVNULL, capture_output=True, timeout=60)
@@ -134,8 +135,19 @@ def run_real(repo: str, desc: dict, strace: dict | None = None) -> dict:
                 full = os.path.join(dp, name)
                 with open(full, "rb") as f:
                     files[os.path.normpath(os.path.join(rel, name))] = f.read()
+        injected = None
+        if strace:
+            try:
+                with open(trace_file, "rb") as tf:
+                    injected = b"(INJECTED)" in tf.read()
+            except OSError:
+                injected = None
+            try:
+                os.unlink(trace_file)
+            except OSError:
+                pass
         return {"status": p.returncode, "stdout": p.stdout, "stderr": p.stderr.decode("utf-8", "replace")[-800:],
-                "files": files, "dirs": sorted(dirs)}
+                "files": files, "dirs": sorted(dirs), "injected": injected}
     finally:
         shutil.rmtree(root, ignore_errors=True)
 
@@ -162,7 +174,8 @@ def compare_real(desc: dict, sim: dict, real: dict) -> list:
             return real_bytes if hashlib.sha256(real_bytes).hexdigest() == h.split(":")[1] else b"<differs>"
         return bytes.fromhex(h)
 
-    sim_files = {os.path.relpath(p, CWD): _unhex(h, real["files"].get(os.path.relpath(p, CWD), b"")) for p, h in sim["final"]["files"].items()}
+    sim_files = {os.path.relpath(p, CWD): _unhex(h, real["files"].get(os.path.relpath(p, CWD), b"")) for p, h in sim["final"]["files"].items()
+                 if p.startswith(CWD + "/")}
     if sorted(sim_files) != sorted(real["files"]):
         diffs.append("file listing sim=%s real=%s" % (sorted(sim_files), sorted(real["files"])))
     else:
@@ -402,6 +415,7 @@ def run(repo: str, tier: str, seed: int, replay_dir=None, write_ev=True, jobs=No
 
         # strace: inject the same fault into a real process and compare the outcome class
         st_n = 0
+        st_skipped = 0
         if shutil.which("strace"):
             cand = 0
             while st_n < P["strace"] and cand < P["strace"] * 400:
@@ -421,11 +435,18 @@ def run(repo: str, tier: str, seed: int, replay_dir=None, write_ev=True, jobs=No
                 plan = [{"at": pts[0][0], "op": pts[0][1], "kind": kind[1]}]
                 simf = w0.request({"cmd": "c16_check", "desc": dict(d, plan=plan), "events": True})["result"]
                 real = run_real(repo, d, strace={"path": d["out_path"], "syscall": kind[0], "errno": kind[1], "when": "1"})
+                if not real.get("injected"):
+                    # the real process never made that system call on OUT (it writes through sendfile,
+                    # a temporary file, ...): nothing was injected, nothing to compare
+                    st_skipped += 1
+                    if st_skipped > 4 * P["strace"]:
+                        break
+                    continue
                 st_n += 1
                 if (simf["status"] == 0) != (real["status"] == 0):
                     raise HarnessError("strace-injected real run and simulated faulted run disagree: argv=%r fault=%s sim=%s real=%s" % (
                         d["argv"], kind, simf["status"], real["status"]))
-        cov["phases"]["strace_fault_cross_validation"] = {"cases": st_n, "disagreements": 0}
+        cov["phases"]["strace_fault_cross_validation"] = {"cases": st_n, "disagreements": 0, "skipped_because_nothing_was_injected": st_skipped}
         log("strace cross-validation: %d cases" % st_n)
 
         stray = fleet.stray_files()
@@ -434,6 +455,7 @@ def run(repo: str, tier: str, seed: int, replay_dir=None, write_ev=True, jobs=No
 
         # ---- shrink + replay-verify -------------------------------------------------------
         model_gaps = []
+        gap_classes = set()
         by_class = {}
         for f in failures + real_viol:
             for v in f["violations"]:
@@ -483,11 +505,18 @@ def run(repo: str, tier: str, seed: int, replay_dir=None, write_ev=True, jobs=No
                     real = run_real(repo, mdesc)
                     jr = wg.request({"cmd": "c16_judge", "desc": mdesc, "result": real_as_result(mdesc, real)})
                     if not any(_vc(v) == vclass for v in jr["violations"]):
+                        gap_classes.add(vclass)
                         model_gaps.append("%s: simulated status %s (%s), real status %s; real stderr: %s" % (
                             sig, doc.get("status"), doc.get("exc"), real["status"], real["stderr"][-200:].replace("\n", " | ")))
                         seen_sig.discard(sig)
                         continue
                     doc["confirmed_by_real_process"] = True
+                elif not is_real and not (mdesc.get("plan") or []) and vclass in gap_classes:
+                    # the same class of fault-free finding was already disproved by a real process in
+                    # this run: an instance that cannot be run for real is not trusted either
+                    model_gaps.append("%s: cannot be run for real; same class disproved by a real process above" % sig)
+                    seen_sig.discard(sig)
+                    continue
                 violations.append((doc, sig))
                 n_sig += 1
                 if n_sig >= 3:
